@@ -412,6 +412,11 @@ func (c *Conn) HandshakeContext(ctx context.Context) error {
 // DTLS 1.3 is selected, the DTLS 1.3 FSM imports those packets into its
 // transcript.
 func (c *Conn) prepareHandshakeStart(ctx context.Context) (handshakeStart, error) {
+	if c.handshakeConfig.ResumeState != nil {
+		// An imported DTLS 1.2 connection continues where it was exported,
+		// whatever version range its options enable.
+		return c.prepareHandshakeStart12(), nil
+	}
 	if c.handshakeConfig.MaxVersion == protocol.Version1_2 {
 		return c.prepareHandshakeStart12(), nil
 	}
